@@ -271,6 +271,40 @@ def run(tier, seed, replay=None):
         except Exception as e:  # noqa
             fail('curvature/torsion', args, 'raised %s' % type(e).__name__)
 
+    # ---------------------------------------------------------------- planar curves: curvature is the unsigned |v x a| / |v|^3
+    for it in range(reps):
+        while True:
+            spec = O.gen_obj(rng, pardim=1, kinds=['open'], nint_max=2, pmax=5, dim=2, rational=rng.random() < 0.3)
+            if spec['bases'][0]['order'] >= 3 and continuous(spec):
+                break
+        o = O.make_impl(spec)
+        args = dict(obj=O.spec_json(spec))
+        ts = [o.start(0) + (o.end(0) - o.start(0)) * (rng.randint(1, 63) / 64.0 + 1 / 256.0) for _ in range(5)]
+        try:
+            v = np.asarray(o.derivative(ts, 1))
+            a = np.asarray(o.derivative(ts, 2))
+            sp_ = np.linalg.norm(v, axis=1)
+            if np.min(sp_) < 1e-6:
+                continue
+            kap = np.abs(v[:, 0] * a[:, 1] - v[:, 1] * a[:, 0]) / sp_ ** 3
+            count('planar curvature', measure='curvature')
+            kv = np.asarray(o.curvature(ts))
+            ks = np.array([float(o.curvature(t)) for t in ts])
+            lim = 1e-8 * max(1.0, np.max(kap))
+            if np.max(np.abs(kv - kap)) > lim or np.max(np.abs(ks - kap)) > lim:
+                fail('planar curvature', dict(args, t=ts), 'curvature (array %s, scalar %s) differs from |v x a| / |v|^3 = %s' % (kv.tolist(), ks.tolist(), kap.tolist()))
+                continue
+            # reversal and embedding in 3-D do not change it
+            r_ = o.clone().reverse()
+            tr = [r_.start(0) + r_.end(0) - t for t in ts]
+            e3 = o.clone().set_dimension(3)
+            if np.max(np.abs(np.asarray(r_.curvature(tr)) - kap)) > lim or np.max(np.abs(np.asarray(e3.curvature(ts)) - kap)) > lim:
+                fail('planar curvature', dict(args, t=ts), 'curvature changes under reversal or embedding in 3-D')
+            if np.max(np.abs(np.asarray(o.torsion(ts)))) != 0:
+                fail('planar curvature', dict(args, t=ts), 'torsion of a planar curve is not zero')
+        except Exception as e:  # noqa
+            fail('planar curvature', args, 'raised %s' % type(e).__name__)
+
     # ---------------------------------------------------------------- analytic shapes under refinement
     def converge(name, make, exact, measure_):
         try:
